@@ -432,6 +432,11 @@ def run(ctx, report):
                       'under whatever spelling of its address the evaluated expression uses); shared with C07.D15', floor=3)
     from .c07 import lookup_key_rule
     lookup_key_rule(R14, ea, methods)
+    R16 = report.rule('C06.D16', 'the symbolic machine interpreted from its source (mpool, eval_abs, the node classes, the simplifier) on 24 instruction histories - a cell read at its own '
+                      'width, narrower, wider, from the middle, across cells and before a cell, through constant and symbolic addresses, values that became constants on the way through every '
+                      'shift / rotate evaluator: every register and probed cell, valued on three initial states, equals the concrete execution of the history (shared with C07.D17)', floor=20)
+    from .. import machine as _machine
+    _machine.emit(R16, ctx, 'C06')
     R13 = report.rule('C06.D13', 'eval_ExprCond evaluated from the source on every kind of evaluated condition (constants, symbolic flags, a conditional with constant arms 0 / non-zero in '
                       'every combination, a comparison): the node it returns has the value of the selected arm under every valuation', floor=20)
     cond_eval_rule(ctx, R13)
